@@ -69,10 +69,10 @@ execute(const Case &c, bool trace)
   snprintf(b, sizeof b,
            "OUTCOME probe_collision=%d probe_wrapped=%d waited_full=%d reuse_in_cleanup=%d reuse_after_exit=%d claim_overlaps_exit=%d "
            "fwd_with_foreign_guard=%d thread_churn=%d quiescent_after_pinned=%d boundary_crossed=%d fwd_inside_getprotected=%d "
-           "node_retired_under_guard=%d ids=%d guards=%d forwards=%d skipped=%d executed=%d excluded=%d steps=%lu\n",
+           "node_retired_under_guard=%d ids=%d guards=%d forwards=%d skipped=%d executed=%d excluded=%d steps=%lu maxid=%d overlap=%d\n",
            o.probe_collision, o.probe_wrapped, o.waited_full, o.reuse_in_cleanup, o.reuse_after_exit, o.claim_overlaps_exit, o.fwd_with_foreign_guard,
            o.thread_churn, o.quiescent_after_pinned, o.boundary_crossed, o.fwd_inside_getprotected, o.node_retired_under_guard, o.ids_issued, o.guards,
-           o.forwards, o.skipped, o.executed, o.excluded_known, vsched::total_steps());
+           o.forwards, o.skipped, o.executed, o.excluded_known, vsched::total_steps(), o.max_id, static_cast<int>(o.overlapping_guards));
   emit(b);
   {
     std::string ls = "LSTEPS";
@@ -115,6 +115,12 @@ parse_outcome(const std::string &out, Outcome &o, uint64_t &steps)
   o.executed = v[16];
   o.excluded_known = v[17];
   steps = st;
+  {
+    const auto mp = out.find(" maxid=", pos);
+    if (mp != std::string::npos) o.max_id = atoi(out.c_str() + mp + 7);
+    const auto op2 = out.find(" overlap=", pos);
+    if (op2 != std::string::npos) o.overlapping_guards = atoi(out.c_str() + op2 + 9) != 0;
+  }
   return true;
 }
 
